@@ -160,6 +160,27 @@ TRUSTED_BASE = [
     "before-after comparison alone; ob.get(...) on a spec that is not a mapping is None here (CPython raises AttributeError) and a "
     "non-iterable `fields` iterates as empty (CPython raises TypeError): the equality for apply_obligations is stated for documented specs "
     "(plainSpec); by hand remains DecisionLogger (sampling, priority of the redaction sets, size bound, the except fall-back)",
+    "for THE COMPILER translated whole, compile(policy) + the closure decide(env) it returns (C03; harness/pytolean_closure.py on top of "
+    "pytolean_except.py, lean/Rbacx/Model/PyIdent.lean, plugin extractors/src_translation_compile.py, obligation Run/C03_whole.lean, validated "
+    "against the real compile(policy)(env) on every C03 run by Run/SrcEvalCompile.lean: result dict with key order or exception class) the "
+    "trusted readings are: CLOSURE = INLINING — `return decide` is the body of the nested def with the compile-time variables as they are at the "
+    "return (accepted only when nothing rebinds or operates in place on a captured variable after the def, inside the closure or between "
+    "calls), `return lambda env: e` is e, so one definition stands for compile(policy)(env) and state kept ACROSS calls of one compiled "
+    "function is not represented (the session / overlap cases of the check look at that on the real code); OBJECT IDENTITY = POSITION — a "
+    "shape inference finds the variables holding objects observed through id(); such an object is the pair (identity, value), identities "
+    "are given where a plain value flows into a list of such objects (rules = … or []) as the position in that list, id(x) reads the "
+    "identity and every other use the value: two occurrences of ONE dict object in a rules list (never produced by a JSON / YAML loader) "
+    "are not represented; IN-PLACE OPERATIONS on a local that every assignment binds to a fresh display ([], {}, set(), a display of those) "
+    "are rebinding — append / add / xs[i].append / xs[i] = v / d.setdefault(k, []).append / sort(key=…) — accepted only while no bare use "
+    "of the variable or of an item of it that could be an alias is followed by such an operation; a dict all of whose keys are id(…) "
+    "values is the insertion-ordered list of its entries; list.sort(key) is a stable insertion sort on int keys (other key kinds are not "
+    "represented); range(<int constants>) is evaluated by CPython at translation time; a for loop carries the variables its body assigns or "
+    "operates on that are definitely assigned before it; the string literal of `….get(\"algorithm\") or <literal>` is emitted as "
+    "Src.compile_default and judged by C17; CALLED, not re-translated: _actions, _categorize, match_resource, _is_strict as the total "
+    "translations of C03_translated / C05_translated (an item of rules, a rule's resource or env['resource'] that is a truthy non-dict "
+    "makes CPython raise AttributeError where they answer: not judged by the comparison) and evaluate / decide as translated for C02_whole; "
+    "PARTIAL: proved on the generated text are the set delegation and the prologue, plus three kernel-evaluated witnesses; the index / seen "
+    "set / sort / bucket part is tied by the differential runs (its generic lemmas are proved in Proofs/CompileTranslated.lean)",
 ]
 
 
